@@ -9,15 +9,15 @@ TEXT = {
  "C02": ("refinement theorem: a paragraph of inline content yields exactly one record whose tokens are label + marker + the children's contributions in order; merge keeps the atom sequence (partial, counterexample proved); correspondence of all plain strings; reference-rendering oracle per paragraph + source translation: _is_content / has_content and the content-tag set equal the model; the run methods of the collector in the heap embedding (add_text_into_open_run, insert_text_as_new_run, commence_run ...) do exactly the model's run operations and touch nothing else", "8 C02"),
  "C03": ("theorems on the view functions (address-wise agreement of the three forms, concatenation of document*, text) for arbitrary nested input + correspondence of all views + the four equalities evaluated on /repo's values + source translation: get_par_strings, _join_runs, flatten_text equal the model", "8 C03"),
  "C04": ("grid theorems for every tiling (n x m, duplicate / blank, agreement off merges) + END-TO-END refinement: walking a whole tbl/tr/tc/p table from any reachable state appends exactly the grid function's table, each position holding the records of the source cell covering it (GridWalk; side condition refuted without it) + correspondence + cell-by-cell grid oracle", "8 C04"),
- "C05": ("lineage theorem for every directly nested table walked from any state, free-paragraph theorem, element/style from the paragraph refinement + correspondence of lineage/style/element + oracle on /repo's records, predicates and get_headings + source translation: is_tbl/is_tr/is_tc and get_pStyle equal the model", "8 C05"),
+ "C05": ("lineage theorem for every directly nested table walked from any state, free-paragraph theorem, element/style from the paragraph refinement + correspondence of lineage/style/element + oracle on /repo's records, predicates and get_headings + source translation: is_tbl/is_tr/is_tc and get_pStyle equal the model; commence_paragraph in the heap embedding stores the lineage as it is after set_caret in a new Par (frame of the caret methods proved)", "8 C05"),
  "C06": ("merge theorems (atoms preserved, idempotent - both partial with machine-checked counterexamples for each dropped hypothesis) + correspondence at run granularity + metamorphic re-splitting oracle + source translation: _is_mergeable, _is_text_or_text_math and the merge key _elem_key equal the model for every element", "8 C06"),
  "C07": ("balance theorem for every document (nested paragraphs and link bodies included), escaping theorems, vocabulary over the regenerated formatter table, switched-off properties produce no tag + correspondence of html strings + tokenizer oracle (balance, vocabulary, escapes, projection onto plain, per-character tag sets exactly those of the source run properties) + source translation: html_open/html_close, Run.__str__, Par.run_strings, DepthCollector.escape, namespace.qn and gather_Pr equal the model", "8 C07"),
- "C08": ("unbounded theorems for letters, Roman 1..3999 by kernel computation, counting rule for every history, sorted positions, marker layout + correspondence of the renderers and of list documents + oracle recomputing counts and marker text + source translation: the six renderers and _increment_list_counter equal the model for all arguments", "8 C08"),
+ "C08": ("unbounded theorems for letters, Roman 1..3999 by kernel computation, counting rule for every history, sorted positions, marker layout + correspondence of the renderers and of list documents + oracle recomputing counts and marker text + source translation: the six renderers, _increment_list_counter and BulletGenerator.get_bullet_fmt (numId / ilvl of a paragraph) equal the model for all arguments", "8 C08"),
  "C09": ("path-inference theorems (relative, absolute, root, own rels; the two failing classes refuted) + correspondence of file list and all attributes on re-laid-out packages + layout-invariance oracle", "8 C09"),
  "C10": ("marker theorems via the paragraph refinement (link resolved / anchor / fallback, one run, note references, note labels) + correspondence at run granularity and of utilities.get_links (regex re-implemented in Utilities.v) + oracle against relationships and get_links + relationships re-pointed through the reader render their current target", "8 C10"),
  "C11": ("theorems on the images mapping (sound, complete, missing skipped); files on disk are observed only: oracle compares folder listing and bytes; partial + file-system model (Fs.v): exactly the images are written, byte-identical, nothing else changes", "8 C11"),
  "C12": ("prefix-monotonicity theorems for run strings at comment markers, bounds of recorded ranges, mismatch outcomes (partial: single open paragraph; counterexamples proved) + correspondence of comments + anchor oracles", "8 C12"),
- "C13": ("totality theorem: local success of every element implies success of the whole walk and rendering (table-free, marker-free trees), internal errors unreachable for every input + correspondence of outcome classes on the edge stream + no-exception oracle", "8 C13"),
+ "C13": ("totality theorem: local success of every element implies success of the whole walk and rendering (table-free, marker-free trees), internal errors unreachable for every input + correspondence of outcome classes on the edge stream + no-exception oracle + source translation: forms.get_checkBox_entry / get_ddList_entry equal the model for every element", "8 C13"),
  "C14": ("state-machine theorems over all histories (reads return the value, cache monotone) + correspondence of outcome sequences + purity/freshness/input-untouched oracles; partial: Python heap aliasing observed only + source translation with the heap embedding: get_par_strings / _join_runs / Par.run_strings return freshly allocated lists and modify no existing cell; mutating a result cannot change the collector's represented state", "8 C14"),
  "C15": ("theorems over all histories (outcomes, never reopened, close idempotent, exit = close) + correspondence + descriptor / reopen / exception-identity oracles; partial: OS descriptors observed only", "8 C15"),
  "C16": ("theorems on the written archive (copied members exact, rewritten members = cached trees, names, duplicate refuted, second save via merge idempotence) + member-by-member correspondence + round-trip oracles", "8 C16"),
